@@ -83,4 +83,25 @@ def Table.dispatch (t : Table) (path : Bytes) : Option Entry := t.find? (fun e =
 /-- no two entries can match the same path -/
 def Table.Valid (t : Table) : Prop := t.Pairwise (fun a b => a.pat.overlaps b.pat = false)
 
+/-! ### readiness of a route's service stack -/
+
+/-- a route's service stack: tower layers that forward readiness (`poll_ready = inner.poll_ready`,
+`call = inner.call`: what `route_layer` adds), anemo's `Route` boxes between them (every `route_layer`
+wraps the layered service in a new `Route`), and the user's service at the bottom -/
+inductive SvcTree where
+  | leaf (svc : Nat)
+  | layer (tag : Nat) (inner : SvcTree)
+  | route (inner : SvcTree)
+  deriving Repr
+
+/-- the layers that get `call`ed on an instance that was not polled ready first, when the node is called
+on an instance whose readiness state is `polled` (a clone starts un-polled) -/
+def callWith (routePolls : Bool) : Bool → SvcTree → List Nat
+  | _, .leaf _ => []
+  | polled, .layer tag inner => (if polled then [] else [tag]) ++ callWith routePolls polled inner
+  | _, .route inner => callWith routePolls routePolls inner
+
+/-- `Router::call`: `route.oneshot_inner(req)` = a fresh clone, polled, then called -/
+def oneshotTree (routePolls : Bool) (s : SvcTree) : List Nat := callWith routePolls true s
+
 end Anemo
